@@ -34,7 +34,7 @@ ANCHORS = [("leuvenmapmatching/matcher/base.py", "BaseMatching.update"),
            ("leuvenmapmatching/matcher/distance.py", "DistanceMatcher.logprob_trans")]
 FLOORS = {"optimum_comparisons_nontrivial": 500, "early_stops": 50, "no_start_candidate": 30, "dp_vs_bruteforce": 20,
           "family:simple": 300, "family:simple_nodes": 300, "family:distance": 300, "tightened_cases": 300,
-          "paths_rescored_by_reference": 1000, "threshold_hit_exactly": 20, "reused_matcher_cases": 500, "debug_level_cases": 500, "grown_map_cases": 300, "tiny_scale_cases": 300, "map_distances_checked_against_exact_geometry": 50000}
+          "paths_rescored_by_reference": 1000, "threshold_hit_exactly": 20, "reused_matcher_cases": 500, "debug_level_cases": 500, "grown_map_cases": 300, "tiny_scale_cases": 300, "dense_cases_more_than_100_candidates": 40, "map_distances_checked_against_exact_geometry": 50000}
 ASSUMPTIONS = ["the distance/projection of an observation on a state is taken from the map's own primitive so that threshold decisions are "
                "bit-identical (those primitives are judged by C05/C13); everything else (states, successors, scores, stop rule, DP) is independent",
                "cases in which a normalised probability falls within 1e-9 relative of min_prob_norm (or exactly on it: the reference's own score formula "
@@ -43,6 +43,12 @@ ASSUMPTIONS = ["the distance/projection of an observation on a state is taken fr
 
 
 def gen_case(rng, i, tier):
+    if i % 150 == 77:
+        # more than 100 live candidates in one column (car-park class of C06): bounds inside the implementation bite here
+        from .C06 import gen_dense_case
+        case = gen_dense_case(rng)
+        case["dense"] = True
+        return case
     case = mcase.gen_mcase(rng, ne=False, width=False, agb=False, tighten_p=0.4)
     if rng.random() < 0.3:
         # the matcher object is reused: another trace on the same map is matched first (often stopping early),
@@ -196,6 +202,8 @@ def check_case(ctx, case):
     ctx.count("map_distances_checked_against_exact_geometry", stats.get("geometry_checked", 0))
     if case.get("tiny"):
         ctx.count("tiny_scale_cases")
+    if case.get("dense"):
+        ctx.count("dense_cases_more_than_100_candidates")
     if verdicts is None:
         ctx.count("skipped_borderline")
         return
